@@ -57,3 +57,14 @@ fn k4_apply_syll_mods() {
     }
     kani::cover!(r.is_ok() && sy.stress != s0);
 }
+
+//% props=C05,C14 tier=quick kind=P covers=assumed.derive_eq pair=<StressKind as PartialEq>::eq clause="derived == on StressKind is variant identity (assumed structural in the Verus kernel supras)"
+#[kani::proof]
+#[kani::unwind(3)]
+fn k0_stresskind_eq_is_structural() {
+    let a = any_stress();
+    let b = any_stress();
+    let ia = match a { StressKind::Primary => 0, StressKind::Secondary => 1, StressKind::Unstressed => 2 };
+    let ib = match b { StressKind::Primary => 0, StressKind::Secondary => 1, StressKind::Unstressed => 2 };
+    assert!((a == b) == (ia == ib));
+}
